@@ -6,7 +6,7 @@ from vlib import *
 
 OVERLAY = {"fusemanager/verif_fusemgr_test.go": "fusemanager/verif_fusemgr_test.go"}
 INTERNAL = ("TypeOK",)
-INV = ["RecordEqualsServing", "NoSecondMount", "MapMatchesLive", "NoPanic"]
+INV = ["RecordedLabelsServed", "RecordEqualsServing", "NoSecondMount", "MapMatchesLive", "NoPanic"]
 # one negative control per property-bearing guard of service.go / fusestore.go: guard off -> one of these formulas must fail
 NEGCTL = [
     ("ReadyGate", ["BeforeInitFails", "NoFsMountFails"]),
@@ -19,6 +19,7 @@ NEGCTL = [
     ("AdoptNewFs", ["NewMountsUseNewConfig"]),
     ("RestoreOnInit", ["RestartRemountsRecordedWithLabels", "RecordEqualsServing"]),
     ("UnknownUnmountOK_G", ["UnknownUnmountOK"]),
+    ("OverwriteRecord", ["RecordedLabelsServed"]),
 ]
 ACTS = ("Init", "Mount", "Check", "Unmount", "Restart", "Close")
 
@@ -195,7 +196,8 @@ def stage_replay(run):
     thorough = run.tier == "thorough"
     # the graphs differ in what they bound: two mountpoints with few Init requests, one mountpoint with more Init requests
     # (a re-Init that has to restore what an earlier Init of the same process failed to restore needs three of them)
-    one = {"NMp": "1", "MaxInit": "3"}
+    # and, with two label sets: restart -> Init failing to restore m1 (record stays) -> Mount(m1, other labels) -> restart -> Init
+    one = {"NMp": "1", "MaxInit": "3", "MaxEpoch": "3", "Labs": '{"la", "lb"}', "InitFails": '{"none"}'}
     gens = ([{"MaxInit": "3", "MaxEpoch": "3"}, {"Labs": '{"la", "lb"}'}, {"NMp": "1", "MaxInit": "4", "MaxEpoch": "3"}]
             if thorough else [None, one])
     jwalks, kinds = [], []
